@@ -117,15 +117,24 @@ int main(int argc, char** argv) {
   for (double a : {0.5, 4.0}) { auto d = std::make_shared<BetaDiscreteDistribution>(4, a, 2.0); laws.push_back({"BetaDiscreteDistribution(" + num(a) + ",2).randC", 1, [d] { return d->randC(); }, [d](double x) { return d->pProb(x); }}); }
   std::vector<LawCfg>* lawsP = &laws;
   R.space(std::string("law:lattice:") + (th ? "thorough" : "quick"), laws.size(), [=](uint64_t idx, vf::Case& c) {
-    const LawCfg& cfg = (*lawsP)[idx];
-    int N = cfg.d == 1 ? (th ? 4096 : 1024) : cfg.d == 2 ? (th ? 256 : 128) : cfg.d == 3 ? (th ? 64 : 40) : (th ? 32 : 24);
-    c.site(cfg.name.c_str());
-    uint64_t acc = 0, tot = 0; double ks = ksLattice(cfg, N, acc, tot);
+    const LawCfg& cfg0 = (*lawsP)[idx];
+    c.site(cfg0.name.c_str());
+    // how many uniform draws the sampler consumes at its first attempt is an implementation detail (a special case may take a shorter
+    // route): the configured count is tried first, then every other count 1..4; the law is judged on the first count that yields
+    // first-attempt paths for at least a quarter of the lattice. No such count: the configuration is not judged (vacuity guard below).
+    LawCfg cfg = cfg0; uint64_t acc = 0, tot = 0; double ks = 1; int N = 0; bool usable = false;
+    for (int d : {cfg0.d, 1, 2, 3, 4}) {
+      if (usable || (d == cfg0.d && N != 0)) continue;
+      cfg.d = d; N = d == 1 ? (th ? 4096 : 1024) : d == 2 ? (th ? 256 : 128) : d == 3 ? (th ? 64 : 40) : (th ? 32 : 24);
+      ks = ksLattice(cfg, N, acc, tot); c.out->evals += tot;
+      if (acc * 4 >= tot) usable = true;
+    }
+    if (!usable) { c.tag("law:not-judged(no draw count 1..4 gives first-attempt paths):" + cfg0.name); return; }
+    if (cfg.d != cfg0.d) c.tag("law:draw-count-differs-from-configured");
     double tol = 2.0 * cfg.d / N;
-    c.out->evals += tot;
     if (acc * 2 >= (uint64_t)N) c.nontrivial();
-    if (acc * 4 < tot) c.fail("law|too-few-first-attempt-paths", cfg.name + ": " + str(acc) + " of " + str(tot));
-    else if (!(ks <= tol)) c.fail("law|distribution-differs-from-cumulative-function", cfg.name + ": Kolmogorov distance " + num(ks) + " between the sampler's lattice push-forward (N=" + str(N) + " per draw, " + str(acc) + " first-attempt paths) and the library's cumulative function with the same parameters; tolerance 2d/N = " + num(tol));
+    c.tag("law:judged");
+    if (!(ks <= tol)) c.fail("law|distribution-differs-from-cumulative-function", cfg.name + ": Kolmogorov distance " + num(ks) + " between the sampler's lattice push-forward (N=" + str(N) + " per draw, " + str(cfg.d) + " draw(s), " + str(acc) + " first-attempt paths) and the library's cumulative function with the same parameters; tolerance 2d/N = " + num(tol));
     c.tag(ks <= tol / 4 ? "law:ks<=tol/4" : ks <= tol ? "law:ks<=tol" : "law:ks>tol");
     c.sample(cfg.name + ": KS=" + num(ks) + " tol=" + num(tol) + " accepted " + str(acc) + "/" + str(tot));
   }, 300.0, 1);
@@ -352,7 +361,7 @@ int main(int argc, char** argv) {
     }, 30.0);
   }
 
-  R.expectSeen("law:ks<=tol/4"); R.expectSeen("getSample:all-streams"); R.expectSeen("rcont2:all-streams"); R.expectSeen("contingency-test->ok");
+  R.expectSeen("law:ks<=tol/4"); R.expectSeen("law:judged", laws.size()); /* every law configuration must have been judged */ R.expectSeen("getSample:all-streams"); R.expectSeen("rcont2:all-streams"); R.expectSeen("contingency-test->ok");
   R.note("law tolerance is the lattice discretisation bound 2d/N; measured distances are written in the samples");
   R.note("a zero-weight entry is judged 'never drawn' on the interior lattice (u=0 exactly has probability 2^-64 and is part of the extremes only for range checks)");
   return R.finish();
